@@ -431,6 +431,7 @@ package ucfg
 // parent yet (an attached node is left alone - the value receiver assigns to a copy).
 //@ iface value.SetContext :: self, ctx
 //@ modifies obj(self)
+//@ ensures metaof(self) == old(metaof(self))
 //@ ensures typeof(self) != cfgSub ==> ctxof(self) == ctx
 //@ ensures typeof(self) == cfgSub && old(ctxof(self).parent) == nil ==> ctxof(self) == ctx
 //@ ensures typeof(self) == cfgSub && old(ctxof(self).parent) != nil ==> ctxof(self) == old(ctxof(self))
@@ -971,8 +972,8 @@ package ucfg
 //@ ensures [absent] cfgEval(elem) != nil && !has(cfgEval(elem).fields.d, n.name) ==> err == nil && r == nil
 
 //@ func (namedField).SetValue :: n, opts, elem, v -> err
-//@ props C12 C10 C15
-//@ tagged-only C10 C15
+//@ props C12 C10 C15 C14
+//@ tagged-only C10 C15 C14
 //@ requires elem != nil && v != nil
 //@ requires typeof(elem) == cfgSub ==> elem.(cfgSub).c != nil && elem.(cfgSub).c.fields != nil
 //@ requires typeof(v) == cfgSub ==> v.(cfgSub).c != nil
@@ -983,6 +984,7 @@ package ucfg
 //@ ensures [stored @C12] typeof(elem) == cfgSub ==> has(elem.(cfgSub).c.fields.d, n.name) && elem.(cfgSub).c.fields.d[n.name] == v
 //@ ensures [slot_ctx @C15] err == nil ==> ctxof(v).parent == elem && ctxof(v).field == n.name
 //@ ensures [source_kept @C10] typeof(elem) == cfgSub && typeof(v) == cfgSub ==> v.(cfgSub).c.ctx == old(v.(cfgSub).c.ctx)
+//@ ensures [refine_meta @C12,C14] typeof(elem) == cfgSub && objref(v) != objref(elem) ==> elem.(cfgSub).c.metadata == old(elem.(cfgSub).c.metadata)
 
 //@ func (*context).empty
 //@ props C15 C10
@@ -1430,6 +1432,7 @@ package ucfg
 //@ iface field.SetValue :: self, opt, elem, v -> err
 //@ modifies tree(cfgEval(elem)), obj(v)
 //@ ensures err == nil ==> didSet(self, elem, v)
+//@ ensures typeof(elem) == cfgSub ==> metaof(elem) == old(metaof(elem))
 
 //@ func isNil :: v -> r
 //@ trusted
@@ -1437,7 +1440,7 @@ package ucfg
 //@ ensures v == nil ==> r
 
 //@ func (cfgPath).SetValue :: p, cfg, opt, val -> err
-//@ props C12 C07
+//@ props C12 C07 C14
 //@ uses cfgsub
 //@ requires cfg != nil && val != nil && len(p.fields) >= 1
 //@ requires forall j int :: 0 <= j && j < len(p.fields) ==> p.fields[j] != nil
@@ -1451,8 +1454,10 @@ package ucfg
 //@ loop 1 invariant val == entry(val)
 //@ loop 1 decreases len(fields)
 //@ loop 2 invariant len(fields) >= 1
+//@ loop 2 invariant base(fields) == base(p.fields)
 //@ loop 2 invariant forall j int :: 0 <= j && j < len(fields) ==> fields[j] != nil
 //@ loop 2 invariant val != nil && node != nil
+//@ loop 2 invariant metaof(val) == old(metaof(entry(val)))
 //@ loop 2 decreases len(fields)
 
 // ---------------------------------------------------------------- helpers found wanting by seeded changes (batch 3)
@@ -1957,3 +1962,35 @@ package ucfg
 //@ rvwrites nothing
 //@ ensures [typed] result != nil && typeof(result) == criticalError
 //@ ensures [reason] result.(criticalError).baseError.reason == ErrTypeMismatch && result.(criticalError).baseError.class == ErrImplementation
+
+// ---------------------------------------------------------------- C04: required / nonzero on strings and collections
+//@ func validateNonEmptyWithAllowNil :: v, _, allowNil -> result
+//@ props C04 C07
+//@ mode bv
+//@ pure
+//@ ensures [string] typeof(v) == string ==> (result == nil) == (v.(string) != "")
+//@ ensures [nil_slice] typeof(v) != string && typeof(v) != regexp.Regexp && rvKind(rvOf(v)) == 23 && rvNil(rvOf(v)) ==> (result == nil) == allowNil
+//@ ensures [list] typeof(v) != string && typeof(v) != regexp.Regexp && (rvKind(rvOf(v)) == 17 || (rvKind(rvOf(v)) == 23 && !rvNil(rvOf(v)))) ==> (result == nil) == (rvLen(rvOf(v)) != 0)
+//@ ensures [nil_map] typeof(v) != string && typeof(v) != regexp.Regexp && rvKind(rvOf(v)) == 21 && rvNil(rvOf(v)) ==> (result == nil) == allowNil
+//@ ensures [map] typeof(v) != string && typeof(v) != regexp.Regexp && rvKind(rvOf(v)) == 21 && !rvNil(rvOf(v)) ==> (result == nil) == (rvLen(rvOf(v)) != 0)
+//@ ensures [other] typeof(v) != string && typeof(v) != regexp.Regexp && rvKind(rvOf(v)) != 17 && rvKind(rvOf(v)) != 23 && rvKind(rvOf(v)) != 21 ==> result == nil
+
+//@ func validateNonEmpty :: v, name -> result
+//@ props C04 C07
+//@ mode bv
+//@ pure
+//@ ensures [string] typeof(v) == string ==> (result == nil) == (v.(string) != "")
+//@ ensures [nil_ok] typeof(v) != string && typeof(v) != regexp.Regexp && (rvKind(rvOf(v)) == 23 || rvKind(rvOf(v)) == 21) && rvNil(rvOf(v)) ==> result == nil
+
+//@ func validateRequired :: v, name -> result
+//@ props C04 C07
+//@ mode bv
+//@ uses boxkinds
+//@ pure
+//@ ensures [nil] v == nil ==> result != nil
+//@ ensures [nil_pointer] v != nil && rvKind(rvOf(v)) == 22 && rvNil(rvOf(v)) ==> result != nil
+//@ ensures [int] v != nil && typeof(v) != time.Duration && 2 <= rvKind(rvOf(v)) && rvKind(rvOf(v)) <= 6 ==> (result == nil) == (anyInt(v) != 0)
+//@ ensures [uint] v != nil && typeof(v) != time.Duration && 7 <= rvKind(rvOf(v)) && rvKind(rvOf(v)) <= 11 ==> (result == nil) == (anyUint(v) != 0)
+//@ ensures [string] typeof(v) == string ==> (result == nil) == (v.(string) != "")
+//@ ensures [nil_slice] v != nil && typeof(v) != string && typeof(v) != regexp.Regexp && (rvKind(rvOf(v)) == 23 || rvKind(rvOf(v)) == 21) && rvNil(rvOf(v)) ==> result != nil
+//@ ensures [empty_list] v != nil && typeof(v) != string && typeof(v) != regexp.Regexp && (rvKind(rvOf(v)) == 17 || (rvKind(rvOf(v)) == 23 && !rvNil(rvOf(v)))) ==> (result == nil) == (rvLen(rvOf(v)) != 0)
